@@ -20,7 +20,12 @@ CLAIM = dict(
     text="Kernel-checked theorems over a model of BlockHeader::hash/validate/difficulty_target and Hash256::cmp: validate = spec "
          "(int(hash) <= mantissa*256^(exp-3) and timestamp strictly above the median of the last <= 11) for all field values and "
          "predecessor lists of any length; numeric ordering for all lengths; exponent range -> error, never panic. The model is tied "
-         "to the code by a differential run (all 256 exponents, target-adjacent hashes, median-adjacent timestamps).",
+         "to the code by a differential run (all 256 exponents, target-adjacent hashes, median-adjacent timestamps). GENESIS "
+         "(CG.Props.Genesis): for all seven networks the kernel evaluates, with the Lean SHA-256, that the declared genesis header "
+         "(regenerated from the tree) hashes through the modelled 80-byte serialisation to the declared genesis hash, that its one "
+         "transaction hashes to the header's Merkle root, and that BlockHeader::validate accepts it. TEXT FORM (CG.Props.HashText): "
+         "Hash256::decode(encode h) = h; the 64-digit text denotes the little-endian number of the hash; decode accepts exactly 64 hex "
+         "digits of either case and never panics (4 700 strings per run).",
     note="Trusted: Lean kernel; the model<->code tie is differential (bounded by the generators); SHA-256 is a parameter in theorems "
          "and an independent Lean implementation in the driver.",
 )
